@@ -29,7 +29,7 @@ Expected(s, d) ==
     ELSE Norm(s.op, d.res)
 
 \* a result that severs an IOSQE_IO_LINK chain: an error or a short transfer
-Breaks(s, res) == res < 0 \/ (s.op \in {"readv", "writev"} /\ res < s.req)
+Breaks(s, res) == res < 0 \/ (s.op \in {"readv", "writev", "readfix", "writefix"} /\ res < s.req)
 
 Cqes(b, u) == {i \in 1..Len(b.cqes) : b.cqes[i].u = u}
 Pos(b, u) == CHOOSE i \in Cqes(b, u) : TRUE
